@@ -25,7 +25,7 @@ func scenarios(tier string) []engine.Scenario {
 	}
 	// Scenario i runs on worker i mod 16: emitted family by family so that each family (= similar cost)
 	// is spread over all workers.
-	var ks, auto, rd, br, cp, pk []engine.Scenario
+	var ks, auto, rd, br, cp, pk, kn []engine.Scenario
 	for _, ch := range chains(tier) {
 		for _, rt := range []ring.Type{ring.Standard, ring.ConjugateInvariant} {
 			ks = append(ks, ksScenario(rt, 4, ch, bound))
@@ -40,11 +40,18 @@ func scenarios(tier string) []engine.Scenario {
 			ks = append(ks, ksScenario(ring.Standard, 5, ch, 2))
 		}
 	}
+	for _, ch := range chains(tier) {
+		class := map[string]string{"q30x3-p30x2": sigLevelPMinus1, "q45x3-noP": sigNoPNoBase2, "q30up-x2-p61": sigDigitCount}[ch.Name]
+		if class != "" {
+			kn = append(kn, knownScenario(ring.Standard, 4, ch, class), knownScenario(ring.ConjugateInvariant, 4, ch, class))
+		}
+	}
 	scs := append(auto, ks...)
 	scs = append(scs, rd...)
 	scs = append(scs, br...)
 	scs = append(scs, pk...)
 	scs = append(scs, cp...)
+	scs = append(scs, kn...)
 	return scs
 }
 
@@ -56,6 +63,9 @@ func expect(tier string) []string {
 		"op=ApplyEvaluationKey/small->large", "op=ApplyEvaluationKey/large->small",
 		"op=DomainSwitcher.RealToComplex", "op=DomainSwitcher.ComplexToReal",
 		"op=Expand==rlk", "op=Expand==gk", "op=Expand==evk"}
+	for _, k := range []string{sigLevelPMinus1, sigNoPNoBase2, sigDigitCount, "none(control)"} {
+		e = append(e, "known-class="+k)
+	}
 	for _, o := range ksOps {
 		e = append(e, "op="+o)
 	}
